@@ -29,7 +29,9 @@ TARGETS = {
                "big_endian_to_int", "int_to_big_endian",
                "h160_to_p2pkh_address", "h160_to_p2sh_address", "h160_to_p2wpkh_address", "h256_to_p2wsh_address"],
     # Class.method: static methods, and instance methods that only READ fields of self (the object is a value)
-    "wallet_utils": ["Bip32Path.is_hardened", "Bip32Path.is_private", "Bip32Path.convert_hardened"],
+    "wallet_utils": ["list_get", "Bip32Path.is_hardened", "Bip32Path.is_private", "Bip32Path.convert_hardened",
+                     "Bip32Path._to_list", "Bip32Path.to_list", "Bip32Path.integrity_check", "Bip32Path.__init__",
+                     "Bip32Path.m", "Bip32Path.repr_hardened", "Bip32Path.__repr__", "Bip32Path.parse"],
     "script": ["Script.raw_serialize", "Script.serialize"],
     "bip39": ["correct_entropy_bits_value", "checksum_length", "mnemonic_sentence_length", "mnemonic_from_entropy"],
     "bip85": ["BIP85DeterministicEntropy.byte_count_from_word_count"],
@@ -113,7 +115,13 @@ class Module:
                             self.method_kind[q] = "static"
                         elif decos == [] and f.args.args and f.args.args[0].arg == "self":
                             self.funcs[q] = f
-                            self.method_kind[q] = "instance"
+                            self.method_kind[q] = "init" if f.name == "__init__" else "instance"
+                        elif decos == ["classmethod"] and f.args.args and f.args.args[0].arg == "cls":
+                            self.funcs[q] = f
+                            self.method_kind[q] = "class"
+                        elif decos == ["property"] and [a.arg for a in f.args.args] == ["self"]:
+                            self.funcs[q] = f
+                            self.method_kind[q] = "property"
                         if f.name == "__init__":
                             for n in ast.walk(f):
                                 if isinstance(n, ast.Attribute) and isinstance(n.ctx, ast.Store) and isinstance(n.value, ast.Name) \
@@ -150,15 +158,21 @@ class FunTrans:
         a = fn.args
         if a.vararg or a.kwarg or a.kwonlyargs or a.posonlyargs:
             raise Untranslatable("star/kw-only parameters")
-        if fn.decorator_list and not (self.kind == "static" and [ast.unparse(d) for d in fn.decorator_list] == ["staticmethod"]):
+        deco = {"static": ["staticmethod"], "class": ["classmethod"], "property": ["property"]}.get(self.kind, [])
+        if [ast.unparse(d) for d in fn.decorator_list] != deco:
             raise Untranslatable("decorated function")
         self.params = [x.arg for x in a.args]
+        if self.kind in ("class", "init"):
+            self.params = self.params[1:]              # cls is not a value; self in __init__ is the object under construction
+        self.fields = mod.fields.get(self.cls, []) if self.cls else []
         self.locals = []
         self.calls = []
         self.appended = set()
         self.collect_locals(fn.body)
         for node in ast.walk(fn):
-            if isinstance(node, (ast.Global, ast.Nonlocal, ast.Yield, ast.YieldFrom, ast.Lambda, ast.Try, ast.With,
+            if self.kind == "init" and isinstance(node, ast.Return):
+                raise Untranslatable("return inside __init__")
+            if isinstance(node, (ast.Global, ast.Nonlocal, ast.Yield, ast.YieldFrom, ast.Lambda, ast.With,
                                  ast.FunctionDef, ast.ClassDef, ast.Delete, ast.Await, ast.NamedExpr,
                                  ast.Continue)) and node is not fn:
                 raise Untranslatable(type(node).__name__)
@@ -184,9 +198,31 @@ class FunTrans:
             elif isinstance(st, (ast.While, ast.If)):
                 self.collect_locals(st.body)
                 self.collect_locals(st.orelse)
+            elif isinstance(st, ast.Try):
+                self.collect_locals(st.body)
+                for h in st.handlers:
+                    self.collect_locals(h.body)
+
+    def self_field(self, t):
+        """`self.f` inside __init__, f a field: the local that holds it"""
+        if self.kind == "init" and isinstance(t, ast.Attribute) and isinstance(t.value, ast.Name) and t.value.id == "self" \
+                and t.attr in self.fields:
+            return "self." + t.attr
+        return None
+
+    def self_object(self):
+        return "(EObj %s %s)" % (cstr(self.cls), self.exprs_raw(["(EVar %s)" % cstr("self." + f) for f in self.fields]))
+
+    def exprs_raw(self, items):
+        out = "ENil"
+        for s in reversed(items):
+            out = "(ECons %s %s)" % (s, out)
+        return out
 
     def targets(self, t):
-        if isinstance(t, ast.Name):
+        if self.self_field(t):
+            self.add_local(self.self_field(t))
+        elif isinstance(t, ast.Name):
             self.add_local(t.id)
         elif isinstance(t, (ast.Tuple, ast.List)):
             for e in t.elts:
@@ -214,6 +250,10 @@ class FunTrans:
         if isinstance(f, ast.Name):
             if f.id in self.mod.funcs:
                 return "%s.%s" % (self.mod.name, f.id)
+            # Class(...) / cls(...) inside a classmethod: the constructor (no subclass, no __new__: structure premise)
+            c = self.cls if (f.id == "cls" and self.kind == "class") else f.id
+            if c in self.mod.fields and ("%s.__init__" % c) in self.mod.funcs and f.id not in self.params and f.id not in self.locals:
+                return "%s.%s.__init__" % (self.mod.name, c)
             imp = self.mod.imports.get(f.id)
             if imp and imp[0] == "from":
                 return "%s.%s" % (imp[1], imp[2])
@@ -230,7 +270,7 @@ class FunTrans:
     def call_args(self, qual, node, scope):
         params, defaults = self.world.signature(qual)
         args = list(node.args)
-        if self.world.kind(qual) == "instance":
+        if self.world.kind(qual) in ("instance", "property"):
             if not (isinstance(node.func, ast.Attribute) and isinstance(node.func.value, ast.Name) and node.func.value.id == "self"):
                 raise Untranslatable("instance method %s called on something other than self" % qual)
             args = [node.func.value] + args
@@ -268,6 +308,8 @@ class FunTrans:
             if isinstance(e.value, (int, str, bytes, bool)) or e.value is None:
                 return "(EConst %s)" % cval(e.value)
             raise Untranslatable("constant %r" % (e.value,))
+        if isinstance(e, ast.Name) and e.id == "self" and self.kind == "init" and "self" not in scope:
+            return self.self_object()
         if isinstance(e, ast.Name):
             if self.is_local(e.id, scope):
                 return "(EVar %s)" % cstr(e.id)
@@ -282,10 +324,17 @@ class FunTrans:
                 return "(EGlob %s)" % cstr("%s.%s" % (imp[1], imp[2]))
             raise Untranslatable("free name %s" % e.id)
         if isinstance(e, ast.Attribute):
-            if isinstance(e.value, ast.Name) and e.value.id == "self" and self.kind == "instance" and isinstance(e.ctx, ast.Load):
+            if self.self_field(e) and isinstance(e.ctx, ast.Load) and "self" not in scope:
+                return "(EVar %s)" % cstr(self.self_field(e))
+            if isinstance(e.value, ast.Name) and e.value.id == "self" and self.kind in ("instance", "property") and isinstance(e.ctx, ast.Load) \
+                    and "self" not in scope:
                 fields = self.mod.fields.get(self.cls, [])
                 if e.attr in fields:
                     return "(EField (EVar \"self\") %d %s)" % (fields.index(e.attr), cstr(e.attr))
+                pq = "%s.%s.%s" % (self.mod.name, self.cls, e.attr)
+                if self.world.kind(pq) == "property" and self.world.known(pq):
+                    self.calls.append(pq)
+                    return "(ECall %s (ECons (EVar \"self\") ENil))" % cstr(pq)
                 raise Untranslatable("attribute self.%s is not a field set by __init__" % e.attr)
             if isinstance(e.value, ast.Name) and not self.is_local(e.value.id, scope):
                 q = "%s.%s" % (e.value.id, e.attr)
@@ -379,6 +428,9 @@ class FunTrans:
                 return "(EBuiltin %s %s)" % (b, self.exprs(e.args[:1], scope))
             if f.value.id == "bytes" and f.attr == "fromhex" and len(e.args) == 1 and not e.keywords:
                 return "(EBuiltin BFromHex %s)" % self.exprs(e.args, scope)
+        if isinstance(f, ast.Name) and f.id == "isinstance" and not self.is_local("isinstance", scope) and len(e.args) == 2 and not e.keywords \
+                and isinstance(e.args[1], ast.Name) and e.args[1].id == "int" and not self.is_local("int", scope):
+            return "(EBuiltin BIsInstanceInt %s)" % self.exprs(e.args[:1], scope)
         # int(a / b): true division followed by truncation
         if isinstance(f, ast.Name) and f.id == "int" and not self.is_local("int", scope) and len(e.args) == 1 and not e.keywords \
                 and isinstance(e.args[0], ast.BinOp) and isinstance(e.args[0].op, ast.Div):
@@ -425,8 +477,8 @@ class FunTrans:
         raise Untranslatable("call %s" % ast.unparse(e.func))
 
     # ---- statements
-    def block(self, body, loops):
-        out = "BNil"
+    def block(self, body, loops, tail="BNil"):
+        out = tail
         for st in reversed(body):
             s = self.stmt(st, loops)
             if s is not None:
@@ -451,6 +503,8 @@ class FunTrans:
             if len(st.targets) != 1:
                 raise Untranslatable("chained assignment")
             t = st.targets[0]
+            if self.self_field(t):
+                return "(SAssign %s %s)" % (cstr(self.self_field(t)), E(st.value))
             if isinstance(t, ast.Name):
                 return "(SAssign %s %s)" % (cstr(t.id), E(st.value))
             if isinstance(t, (ast.Tuple, ast.List)):
@@ -497,6 +551,14 @@ class FunTrans:
             if isinstance(st.test, ast.Constant) and st.test.value is False and st.msg is None:
                 return "(SRaise AssertionError)"          # `assert False`: unreachable-branch marker (python -O is not modelled)
             raise Untranslatable("assert with a condition")
+        if isinstance(st, ast.Try):
+            # try: <one return/expression statement> except <Class>: <block>   (nothing bound inside the body can survive the exception)
+            if st.orelse or st.finalbody or len(st.handlers) != 1 or len(st.body) != 1 or not isinstance(st.body[0], (ast.Return, ast.Expr)):
+                raise Untranslatable("try form")
+            h = st.handlers[0]
+            if h.name is not None or not isinstance(h.type, ast.Name) or h.type.id not in EXN:
+                raise Untranslatable("except clause")
+            return "(STry %s %s %s)" % (self.block(st.body, loops), h.type.id, self.block(h.body, loops))
         if isinstance(st, ast.Break):
             return "SBreak"
         if isinstance(st, ast.Pass):
@@ -540,7 +602,9 @@ class FunTrans:
                         raise Untranslatable("appended list %s stored in a container" % a.id)
 
     def run(self):
-        body = self.block(self.fn.body, frozenset())
+        # falling off the end of __init__ yields the constructed object
+        tail = "(BCons (SReturn %s) BNil)" % self.self_object() if self.kind == "init" else "BNil"
+        body = self.block(self.fn.body, frozenset(), tail)
         self.check_alias()
         return "{| f_params := [%s]; f_locals := [%s]; f_body := %s |}" % (
             "; ".join(cstr(p) for p in self.params), "; ".join(cstr(p) for p in self.locals), body)
@@ -580,6 +644,8 @@ class World:
         m, f = qual.split(".", 1)
         fn = self.mod(m).funcs[f]
         params = [a.arg for a in fn.args.args]
+        if self.kind(qual) in ("class", "init"):
+            params = params[1:]
         defaults = {}
         for a, d in zip(reversed(fn.args.args), reversed(fn.args.defaults)):
             if not isinstance(d, ast.Constant):
